@@ -6,7 +6,7 @@ def run(ctx):
     # size computations that would overflow must be reported as "does not fit", never panic or wrap:
     # the shared align helpers of src/lib.rs against their wide-integer meaning
     run_purefn(ctx, ["lib"], 20000 if ctx.quick() else 400000, oracle_prefixes=("spec_lib",))
-    return run_arena_property(ctx, ["BumpProof.Props.C07"],
+    return run_arena_property(ctx, ["BumpProof.Props.C07", "BumpProof.Props.Hist2@C07"],
         runs_quick=[('faults', 200, 100)],
         runs_thorough=[('faults', 8000, 200), ('ledger', 2000, 200)],
         fields=(0, 1, 6), extra_oracles=('C01','C02','C05','C10'),
